@@ -225,6 +225,6 @@ Theorem C04_revolve_fanconvex : forall (profile : list (pt2 R)) (degrees : R) (s
 Proof. exact revolve_fanconvex_closed. Qed.
 Theorem C04_ring : forall (r R0 : R) (n : Z) (c : list (pt2 R)) (degrees : R) (segments : Z) ph,
   (3 <= n)%Z -> (0 < r)%R -> (r < R0)%R -> circle r n = Some c -> (0 < degrees)%R ->
-  rotate_extrude (pt2s_translate c (Pt2 R0 0)) degrees segments = Some ph ->
+  rotate_extrude (pt2s_translate c (Pt2 R0 0%R)) degrees segments = Some ph ->
   (forall u v, (mcnt u v (snd ph) <= 1)%nat /\ mcnt u v (snd ph) = mcnt v u (snd ph)) /\ (vol6 (fst ph) (snd ph) < 0)%R.
 Proof. exact ring_unconditional. Qed.
